@@ -13,9 +13,78 @@ import valgen
 import xv
 from xv import log
 
-CORPUS_VERSION = "8"
+CORPUS_VERSION = "12"
 
 BOUNDARY = [0, 1, 2, 3, 0xffff, 0x10000, 0x7fffffff, 0x80000000, 0xfffffffe, 0xffffffff]
+
+
+# every kind of element whose encoding is not a whole number of its raw payload bytes, inside
+# counted / fixed / bounded arrays followed by a sentinel: a wrong per-element size shows up
+# from the second element on (dense_cases gives every array 2 or 3 elements)
+ELEM_SPECS = [
+    "struct e5 { unsigned int id; opaque tag[5]; };\nstruct e6 { unsigned int id; opaque tag[6]; };\nstruct e7 { opaque tag[7]; };\n"
+    "struct l5 { e5 items<>; unsigned int tail; };\nstruct l6 { e6 items<16>; unsigned int tail; };\nstruct l7 { e7 items<>; };\n"
+    "struct f7 { e7 two[2]; e6 upto<3>; unsigned int tail; };\ntypedef e6 e6list<>;\nstruct w6 { e6list l; unsigned int tail; };\n",
+    "const N3 = 3;\nconst N5 = 5;\nconst N6 = 6;\nconst N7 = 7;\n"
+    "struct c5 { unsigned int id; opaque tag[N5]; };\nstruct c6 { opaque tag[N6]; hyper h; };\nstruct c7 { opaque tag[N7]; };\n"
+    "typedef opaque t3[N3];\nstruct ct { t3 a; t3 b; };\n"
+    "struct lc5 { c5 items<>; unsigned int tail; };\nstruct lc6 { c6 items<N7>; unsigned int tail; };\nstruct lc7 { c7 items<>; };\n"
+    "struct lct { ct items<>; ct two[2]; unsigned int tail; };\n",
+    "typedef opaque t2[2];\nstruct es { string s<>; };\nstruct es5 { string s<5>; bool b; };\n"
+    "union eu switch (unsigned int k) { case 1: t2 tag; case 2: string s<>; case 3: es5 e; default: void; };\n"
+    "struct eo { int *p; opaque tag[1]; };\n"
+    "struct ls { es items<>; unsigned int tail; };\nstruct ls5 { es5 items<4>; unsigned int tail; };\n"
+    "struct lu { eu items<>; unsigned int tail; };\nstruct lo { eo items<>; eo two[2]; unsigned int tail; };\n",
+    "enum colour { RED = 0, GREEN = 1, BLUE = 2 };\ntypedef colour clist<>;\n"
+    "struct pal { colour xs<>; unsigned int tail; };\nstruct pal2 { clist c; colour ys<1073741825>; };\n"
+    "typedef colour cfix[3];\nstruct pal3 { cfix three; clist more<2>; };\n",
+]
+
+
+def wrap_counts(actual, rng, tier):
+    """counts whose product with a small element size wraps 32 bits: k*2^s + j"""
+    vals = set()
+    for s in (28, 29, 30, 31):
+        for k in (1, 3, 5, 7):
+            if k * 2 ** s >= 2 ** 32:
+                continue
+            for j in (0, 1, actual):
+                vals.add((k * 2 ** s + j) % 2 ** 32)
+    vals = sorted(vals)
+    return vals if tier != "quick" else rng.sample(vals, 4)
+
+
+class DenseRng(random.Random):
+    """array counts 2 or 3 wherever valgen would choose among 0..3"""
+
+    def choice(self, seq):
+        if list(seq) == [0, 1, 2, 3]:
+            return super().choice([2, 3])
+        return super().choice(seq)
+
+
+def dense_cases(rng, cx, types, tier):
+    cases = []
+    r = DenseRng(rng.getrandbits(32))
+    for ty in types:
+        for _ in range(2):
+            try:
+                x = valgen.gen_named(cx, ty, r, 4, valgen.size_picker(r))
+            except valgen.Unsupported:
+                continue
+            e = valgen.enc(x)
+            if len(e) > 600:
+                continue
+            cases.append({"type": ty, "off": 0, "input": e, "kind": "valid", "x": x, "expect": valgen.expected_line(x, 0)})
+            cases.append({"type": ty, "off": 2, "input": e + b"\x09\x08\x07", "kind": "valid_ctx", "x": x,
+                          "expect": valgen.expected_line(x, 2)})
+            for c in range(len(e)):
+                cases.append({"type": ty, "off": 0, "input": e[:c], "kind": "prefix", "full": len(e)})
+            for (o, kind, info) in valgen.marks(cx, None, x, 0, []):
+                if kind == "count":
+                    for v in wrap_counts(info, rng, "thorough"):
+                        cases.append({"type": ty, "off": 0, "input": e[:o] + struct.pack(">I", v) + e[o + 4:], "kind": "wrapcount", "at": o})
+    return cases
 
 
 def tools_hash():
@@ -62,8 +131,19 @@ def quick_specs(seed, tier):
         "const N = 4;\nconst M = 2;\nstruct onechar { int a[N]; opaque d<N>; string s<M>; onechar *q; };\ntypedef opaque v1[N];\ntypedef onechar w1<M>;\n",
         "union fallsdef switch (int k) { case 1: int a; case 2: case 3: default: unsigned hyper rest; };\n",
         "const N = 2;\nstruct leaf { string s<4>; };\nstruct mid { leaf ls<N>; leaf lf[N]; };\nstruct top { mid m; mid *om; mid ms<>; };\n",
+        # a void default written before / between other arms (finding F14), enum-member and
+        # TRUE/FALSE labels on void arms next to a void default
+        "enum stat { OK = 0, DENIED = 1, RETRY = 2 };\nconst SEVEN = 7;\n"
+        "union reply switch (stat s) { case OK: unsigned int v; case DENIED: void; case RETRY: void; default: void; };\n"
+        "union dfirst switch (int k) { default: void; case 1: void; case 2: int x; case 3: void; };\n"
+        "union dfirst2 switch (stat s) { default: void; case DENIED: void; case OK: hyper h; };\n"
+        "union bdef switch (bool b) { case TRUE: void; default: void; };\n"
+        "union bdef2 switch (bool b) { default: void; case FALSE: void; };\n"
+        "union cdef switch (unsigned int k) { case 1: default: void; case SEVEN: void; case 9: unsigned hyper uh; };\n"
+        "struct replies { reply r<>; dfirst d<>; dfirst2 e[2]; cdef c; bdef2 b; };\n",
     ]
     out += [("fixed", s) for s in fixed]
+    out += [("elem", s) for s in ELEM_SPECS]
     # zero-wire-size array elements: only well-formed inputs (a count of 2^32-1 is then a
     # legitimate 4-byte encoding of 4 billion elements; see DESIGN.md section 5)
     out.append(("fixed_validonly", "struct marker { opaque pad[0]; };\nstruct holder0 { marker marks<>; unsigned int tail; };\n"))
@@ -158,6 +238,10 @@ def gen_cases(rng, cx, ast, types, tier, valid_only=False):
                             cases.append({"type": ty, "off": 0,
                                           "input": e[:o] + struct.pack(">I", v % 2 ** 32) + e[o + 4:],
                                           "kind": "disc", "expect_err": "UnknownVariant(%d)" % sv, "at": o})
+                if kind in ("count", "oplen", "strlen") and not valid_only:
+                    for v in wrap_counts(info, rng, tier):
+                        cases.append({"type": ty, "off": 0, "input": e[:o] + struct.pack(">I", v) + e[o + 4:],
+                                      "kind": "wrapcount", "at": o})
             # a count one above the declared maximum, with the data present
             for excess in (1, 2, 3, 4, 5):
                 try:
@@ -295,6 +379,8 @@ def build(tier, seed):
             continue
         cx = valgen.Ctx(o["ast"])
         cs = gen_cases(rng, cx, o["ast"], types[i], tier, valid_only=(specs[i][0] == "fixed_validonly"))
+        if specs[i][0] == "elem":
+            cs += dense_cases(rng, cx, types[i], tier)
         for c in cs:
             c["spec"] = i
         allcases += cs
